@@ -6,7 +6,6 @@ import (
 	"encoding/hex"
 	"fmt"
 	"io"
-	"log"
 
 	"github.com/libsv/go-bk/crypto"
 
@@ -326,15 +325,38 @@ func (tx *Tx) BytesWithClearedInputs(index int, lockingScript []byte) []byte {
 
 // Clone returns a clone of the tx
 func (tx *Tx) Clone() *Tx {
-	// Ignore err as byte slice passed in is created from valid tx
-	clone, err := NewTxFromBytes(tx.Bytes())
-	if err != nil {
-		log.Fatal(err)
+	// Build the copy field by field. Going through Bytes() and the parser cannot
+	// report a failure from here (an input without a 32 byte previous txid does
+	// not survive the round trip), so it used to end the process via log.Fatal.
+	clone := &Tx{
+		Version:  tx.Version,
+		LockTime: tx.LockTime,
 	}
 
-	for i, input := range tx.Inputs {
-		clone.Inputs[i].PreviousTxSatoshis = input.PreviousTxSatoshis
-		clone.Inputs[i].PreviousTxScript = input.PreviousTxScript
+	for _, input := range tx.Inputs {
+		// As after a parse, the clone's unlocking script is never nil.
+		unlockingScript := bscript.Script{}
+		if input.UnlockingScript != nil {
+			unlockingScript = append(unlockingScript, *input.UnlockingScript...)
+		}
+
+		clone.Inputs = append(clone.Inputs, &Input{
+			previousTxID:       append([]byte{}, input.previousTxID...),
+			PreviousTxSatoshis: input.PreviousTxSatoshis,
+			PreviousTxScript:   input.PreviousTxScript,
+			UnlockingScript:    &unlockingScript,
+			PreviousTxOutIndex: input.PreviousTxOutIndex,
+			SequenceNumber:     input.SequenceNumber,
+		})
+	}
+
+	for _, output := range tx.Outputs {
+		out := &Output{Satoshis: output.Satoshis}
+		if output.LockingScript != nil {
+			lockingScript := append(bscript.Script{}, *output.LockingScript...)
+			out.LockingScript = &lockingScript
+		}
+		clone.Outputs = append(clone.Outputs, out)
 	}
 
 	return clone
